@@ -329,7 +329,7 @@ func evalNode(n *Node, in []*Stage, args []*Stage) (*Stage, int, error) {
 			p := Partition(n.Fn, in[0].NShard, r)
 			st.Shards[p] = append(st.Shards[p], r)
 		}
-		return st, len(rows), nil
+		return st, -1, nil
 	case "cogroup":
 		p := n.Schema.Prefix
 		type group struct {
